@@ -301,7 +301,7 @@ def _gro(atoms, box):
 @condition("C03.end_to_end",
            anchors=["polyply.src.gen_coords:gen_coords", "polyply.src.build_system:BuildSystem.run_system", "polyply.src.backmap:Backmap.run_molecule",
                     "polyply.src.generate_templates:GenerateTemplates.run_molecule", "polyply.src.topology:Topology.add_positions_from_file"],
-           rejects=(), selector_only=True, must_cover=["box", "density", "structure", "build file", "grid", "start", "meta coordinates"],
+           rejects=(), selector_only=True, must_cover=["box", "density", "structure", "build file", "grid", "start", "meta coordinates", "nested includes"],
            stubs=["none: the real gen_coords runs end to end with real files (random seed fixed from VERIF_SEED)"],
            outside=["systems larger than the 4-molecule test system", "this condition explores option combinations with one seed each; all-seeds claims are the lemmas above"],
            cfg={"path_timeout_s": 300},
@@ -325,7 +325,18 @@ def end_to_end(sx, B):
     import random as _random
     _random.seed(int(os.environ.get("VERIF_SEED", "0") or 0) + 11)
     try:
-        (Path(d) / "sys.top").write_text(top_text(E2E_MOLS, E2E_LAYOUT, atomtypes=("A", "B", "S")))
+        if sx.sel("topology_files", ["one file", "nested includes"]) == "one file":
+            (Path(d) / "sys.top").write_text(top_text(E2E_MOLS, E2E_LAYOUT, atomtypes=("A", "B", "S")))
+        else:
+            # sys.top -> ff/mols.itp -> solv.itp (next to mols.itp); a file of the same name next to sys.top defines another SV
+            full = top_text({}, E2E_LAYOUT, atomtypes=("A", "B", "S"))
+            head, tail = full.split("[ system ]")
+            (Path(d) / "ff").mkdir()
+            (Path(d) / "sys.top").write_text(head + '#include "ff/mols.itp"\n[ system ]' + tail)
+            (Path(d) / "ff" / "mols.itp").write_text(moltype_text("PM", E2E_MOLS["PM"]) + '\n#include "solv.itp"\n')
+            (Path(d) / "ff" / "solv.itp").write_text(moltype_text("SV", E2E_MOLS["SV"]) + "\n")
+            (Path(d) / "solv.itp").write_text(moltype_text("SV", [("S", ["s1", "s2", "s3"])]) + "\n")
+            sx.cover("nested includes")
         kw = dict(toppath=Path(d) / "sys.top", outpath=Path(d) / "out.gro", name="sys", maxiter=200)
         given = []
         sbox = (7.0, 8.0, 9.0)
@@ -431,20 +442,7 @@ def accepted_is_built(sx, B):
     that is written lists every atom of the expanded [ molecules ] section with finite coordinates - in particular a molecule
     that is not connected is never built into a structure with non-finite coordinates."""
     layout = sx.sel("layout", [[("SOL", 1), ("RNG", 1)], [("POL", 1), ("DIM", 1), ("SOL", 1)], [("RNG", 1), ("POL", 1)]])
-    broken = sx.sel("broken_type", ["none", "POL", "DIM", "RNG"])
-    which = sx.sel("missing_bond", [0, 1, 2, 3])
-    mt = {}
-    bad = set()
-    for name, res in _c10.MOLS.items():
-        natoms = sum(len(a) for _, a in res)
-        bonds = list(_c10.RNG_BONDS) if name == "RNG" else [(i, i + 1) for i in range(1, natoms)]
-        if name == broken and bonds:
-            bonds.pop(min(which, len(bonds) - 1))
-        if not _c10._connected(natoms, bonds):
-            bad.add(name)
-            if name == "RNG" and any(nm == "RNG" for nm, _ in layout):
-                sx.cover("ring plus detached residue")
-        mt[name] = moltype_text(name, res, bonds=bonds)
+    mt, bad = _c10.broken_moltypes(sx)
     d = tempfile.mkdtemp(prefix="pverif_", dir=os.environ.get("TMPDIR"))
     DeferredFileWriter().open_files.clear()
     np.random.seed(int(os.environ.get("VERIF_SEED", "0") or 0) + 5)
@@ -475,4 +473,4 @@ def accepted_is_built(sx, B):
         except ValueError:
             return False
     sx.claim(all(finite(g[3]) for g in got), "every coordinate of an accepted topology is finite",
-             lambda: "layout %r, %s misses bond %d: %r" % (layout, broken, which, [g[3] for g in got if not finite(g[3])]))
+             lambda: "layout %r, types not connected by bonds %r: %r" % (layout, sorted(bad), [g[3] for g in got if not finite(g[3])]))
